@@ -1,0 +1,6 @@
+//go:build !verif
+
+package main
+
+// verifPoint does nothing unless built with the "verif" tag.
+func verifPoint(name string) {}
